@@ -89,6 +89,7 @@ class ClassInfo:
     src: str | None = None  # class name in the source file when it differs from the registry key
     field_defaults: dict[str, str] = field(default_factory=dict)
     optional: tuple = ()  # attributes that may be absent (hasattr is symbolic)
+    owned: tuple = ()  # fields holding an object owned exclusively by this instance (never shared, never reassigned)
 
     @property
     def srcname(self) -> str:
@@ -137,8 +138,8 @@ class Registry:
         self.contracts[qualname] = c
         return c
 
-    def cls(self, name: str, bases=(), fields=None, file=None, init_fields=None, src=None, field_defaults=None, optional=()) -> ClassInfo:
-        ci = ClassInfo(name, list(bases), dict(fields or {}), file, init_fields, src, dict(field_defaults or {}), tuple(optional))
+    def cls(self, name: str, bases=(), fields=None, file=None, init_fields=None, src=None, field_defaults=None, optional=(), owned=()) -> ClassInfo:
+        ci = ClassInfo(name, list(bases), dict(fields or {}), file, init_fields, src, dict(field_defaults or {}), tuple(optional), tuple(owned))
         self.classes[name] = ci
         return ci
 
